@@ -286,5 +286,31 @@ def cmd_report():
             print(r)
 
 
+def cmd_try():
+    """try <id>[,<id>...] PROP [PROP...] [--full]: one mutant of mutants.jsonl in a scratch worktree against the named checks"""
+    ids = [int(x) for x in sys.argv[2].split(",")]
+    props = [a for a in sys.argv[3:] if not a.startswith("--")]
+    muts = {m["id"]: m for m in (json.loads(l) for l in open(os.path.join(MS, "mutants.jsonl")))}
+    for mid in ids:
+        m = muts[mid]
+        wt = tempfile.mkdtemp(prefix=f"mst{mid}_", dir="/tmp")
+        os.rmdir(wt)
+        out = tempfile.mkdtemp(prefix=f"mstout{mid}_", dir="/tmp")
+        try:
+            assert sh(f"git -C /repo worktree add --detach {wt} HEAD -q").returncode == 0
+            orig = open(os.path.join("/repo", m["file"]), "rb").read()
+            open(os.path.join(wt, m["file"]), "wb").write(orig[:m["a"]] + m["new"].encode() + orig[m["b"]:])
+            for p in props:
+                env = dict(os.environ, FLODYM_REPO=wt, VERIF_OUT_DIR=out, PYTHONDONTWRITEBYTECODE="1")
+                env.pop("PYTHONHASHSEED", None)
+                cmd = [os.path.join(VERIF, "check"), p, "--tier", "quick"] + ([] if "--full" in sys.argv else ["--stride", "8"])
+                r = subprocess.run(cmd, capture_output=True, text=True, env=env, cwd=VERIF)
+                det = [l.strip()[:230] for l in r.stdout.splitlines() if l.strip().startswith("clause=")][:2]
+                print(mid, f'{m["file"]}:{m["line"]}', m["op"], p, "exit", r.returncode, det, flush=True)
+        finally:
+            sh(f"git -C /repo worktree remove --force {wt}")
+            sh(f"rm -rf {out}")
+
+
 if __name__ == "__main__":
-    {"gen": cmd_gen, "run": cmd_run, "report": cmd_report}[sys.argv[1]]()
+    {"gen": cmd_gen, "run": cmd_run, "report": cmd_report, "try": cmd_try}[sys.argv[1]]()
